@@ -107,6 +107,10 @@ def registry(rng: random.Random) -> Dict[str, Callable[[int], Callable[[], objec
         "Cylinder.chain.length": lambda v: lambda: cb.Cylinder.chain(cylinder(), scale * v / 10.0),
         "Frustum.chain.length": lambda v: lambda: cb.Frustum.chain(cylinder(), scale * v / 10.0, 0.5 * scale),
         "ExtrudedRing.chain.length": lambda v: lambda: cb.ExtrudedRing.chain(cb.ExtrudedRing(axis0, axis1, radius_point(0), 0.4 * scale), scale * v / 10.0),
+        "Cylinder.chain.length.start_face": lambda v: lambda: cb.Cylinder.chain(cylinder(), scale * v / 10.0, start_face=True),
+        "Frustum.chain.length.start_face": lambda v: lambda: cb.Frustum.chain(cylinder(), scale * v / 10.0, 0.5 * scale, start_face=True),
+        "ExtrudedRing.chain.length.start_face": lambda v: lambda: cb.ExtrudedRing.chain(cb.ExtrudedRing(axis0, axis1, radius_point(0), 0.4 * scale),
+                                                                                       scale * v / 10.0, start_face=True),
         "LoftedShape.face_counts": lambda v: lambda: cb.LoftedShape(sketches(4), sketches(v).translate([0, 0, 1])),
         "LoftedShape.mid_face_counts": lambda v: lambda: cb.LoftedShape(sketches(4), sketches(4).translate([0, 0, 2]), sketches(v).translate([0, 0, 1])),
         "LoftedShape.mid_list_first": lambda v: lambda: cb.LoftedShape(sketches(4), sketches(4).translate([0, 0, 2]),
